@@ -5,7 +5,7 @@ import re
 
 import vlib
 
-PROPS = ['Rangers.Props.C01']
+PROPS = ['Rangers.Props.C01', 'Rangers.Props.C01Sites']
 DRIVERS = ['C01']
 META = dict(
     level='proof',
@@ -38,16 +38,46 @@ META = dict(
 KNOWN_SITE_KEYS = None
 
 
+SCOPE_DIRS = ['src/core', 'src/executor', 'src/service', 'src/storage/account', 'src/middleware/types', 'src/vm']
+
+
+def _scope_digest(ctx):
+    """sha256 over every non-test .go file of the scanned packages and over the translator itself."""
+    import hashlib
+    h = hashlib.sha256()
+    roots = [os.path.join(ctx.repo, d) for d in SCOPE_DIRS] + [os.path.join(vlib.GEN, 'cmd', 'c01facts')]
+    for root in roots:
+        for fn in sorted(os.listdir(root)) if os.path.isdir(root) else []:
+            if fn.endswith('.go') and not fn.endswith('_test.go'):
+                h.update(fn.encode())
+                h.update(open(os.path.join(root, fn), 'rb').read())
+    return h.hexdigest()
+
+
 def gen(ctx):
-    """T-gen: regenerate Generated/NondetSites.lean from ctx.repo."""
-    if not os.path.isdir(os.path.join(vlib.GEN, 'cmd', 'c01facts')):
-        return dict(ok=True, note='no translator yet')
-    rc, so, se = vlib.go_run_gen(ctx, 'c01facts', ['repo=' + ctx.repo])
-    if rc != 0:
-        return dict(ok=False, error='c01facts failed: ' + (se or so)[-1500:])
-    changed = vlib.write_if_changed(os.path.join(vlib.LEAN, 'Rangers', 'Generated', 'NondetSites.lean'), so)
+    """T-gen: regenerate Generated/NondetSites.lean from ctx.repo (go/ast + go/types, ~35 s because the
+    source importer type-checks the dependencies; the output is re-used when no scanned file changed)."""
+    target = os.path.join(vlib.LEAN, 'Rangers', 'Generated', 'NondetSites.lean')
+    dig = _scope_digest(ctx)
+    cache = os.path.join(vlib.WORK, 'c01facts.cache.json')
+    so = None
+    if os.path.exists(cache):
+        try:
+            c = json.load(open(cache))
+            if c.get('digest') == dig:
+                so = c['out']
+        except Exception:
+            so = None
+    cached = so is not None
+    if so is None:
+        rc, so, se = vlib.go_run_gen(ctx, 'c01facts', ['repo=' + ctx.repo], timeout=600)
+        if rc != 0 or 'def siteKeys' not in so:
+            return dict(ok=False, error='c01facts failed: ' + (se or so)[-1500:])
+        os.makedirs(vlib.WORK, exist_ok=True)
+        json.dump(dict(digest=dig, out=so), open(cache, 'w'))
+    changed = vlib.write_if_changed(target, so)
     n = len(re.findall(r'^\s*⟨', so, re.M))
-    return dict(ok=True, sites=n, changed=changed)
+    return dict(ok=True, sites=n, changed=changed, cached=cached)
 
 
 def correspond(ctx):
